@@ -196,6 +196,7 @@ def mk_target():
 def run_lexical(case):
     outer, term = case
     full = term if outer == 'auto' else [outer, term]
+    full = json.loads(json.dumps(full))     # the generator re-uses sub-term objects; the reference keys Group accumulators by node identity
     spec = build(full, [0])
     want_log = []
     try:
